@@ -188,6 +188,18 @@ fn oracle(s: &ProgScene<X>, t: &Trace) -> Vec<Violation> {
     out
 }
 
+thread_local! {
+    /// context operations performed from inside the lifecycle hooks (see make_case_slow)
+    static HOOK_ACTS: std::cell::Cell<u8> = const { std::cell::Cell::new(0) };
+}
+
+fn with_hook_acts<T>(mode: u8, f: impl FnOnce() -> T) -> T {
+    HOOK_ACTS.with(|h| h.set(mode));
+    let r = f();
+    HOOK_ACTS.with(|h| h.set(0));
+    r
+}
+
 #[allow(clippy::too_many_arguments)]
 fn make_case(progs: &[Vec<A>], spawn: SpawnCfg, attach: Attach, start_err: Option<usize>, tick: bool, owner: bool) -> Case {
     make_case_slow(progs, spawn, attach, start_err, tick, owner, 0)
@@ -224,12 +236,25 @@ fn make_case_slow(progs: &[Vec<A>], spawn: SpawnCfg, attach: Attach, start_err: 
     if tick {
         role.started_actions.push(Action::Interval { timer: 1, period: 1 });
     }
+    match HOOK_ACTS.with(|h| h.get()) {
+        // the actor asks for its own stop from started(): whatever is queued is still handled
+        // after started() completed, then stopped() - once
+        1 => role.started_actions.push(Action::Stop),
+        // ... and once more from stopped(), where there is nothing left to stop
+        2 => role.stopped_actions.push(Action::Stop),
+        _ => {}
+    }
     role.started_sleep = slow_start;
     // (the same for stopped(): whatever the handler timeout is, the hook runs to its end)
     role.stopped_sleep = slow_start;
     let stream = attach != Attach::None;
+    let hook_tag = match HOOK_ACTS.with(|h| h.get()) {
+        1 => " [ctx.stop() in started()]",
+        2 => " [ctx.stop() in stopped()]",
+        _ => "",
+    };
     let desc = format!(
-        "lifecycle {:?} strat={:?} mailbox={} timeout={:?} slow_start={slow_start} attach={:?} start_err={:?} tick={} progs={}",
+        "lifecycle{hook_tag} {:?} strat={:?} mailbox={} timeout={:?} slow_start={slow_start} attach={:?} start_err={:?} tick={} progs={}",
         if stream { "stream" } else { "plain" },
         spawn.strat,
         spawn.mailbox.name(),
@@ -373,6 +398,11 @@ fn cases(tier: Tier) -> Vec<Case> {
     // nobody comes near and a bounded mailbox that never fills
     let plain = |d: &str| d.contains("lifecycle \"plain\"") && d.contains("timeout=None");
     let mut v = base_cases(tier);
+    // context operations from inside the hooks (every second case; thorough: all)
+    for mode in [1u8, 2] {
+        let step = if tier == Tier::Thorough { 1 } else { 2 };
+        v.extend(with_hook_acts(mode, || base_cases(tier)).into_iter().enumerate().filter(|(i, _)| i % step == 0).map(|(_, c)| c));
+    }
     v.extend(crate::check::with_ambient(base_cases(tier).into_iter().filter(|c| plain(&c.desc)).collect(), crate::scenes::Ambient { generous_timeout: true, roomy: true, ..Default::default() }));
     v
 }
